@@ -1173,6 +1173,11 @@ fn large(c: &mut Case) {
     })
 }
 
+/// general random matrices of order 258..300 (row and pivot indices beyond one byte)
+fn order_above_256(c: &mut Case) {
+    scverif::with_big(2, || gen_random(c))
+}
+
 fn main() {
     runner::main(Spec {
         property: "C02",
@@ -1200,6 +1205,7 @@ fn main() {
             Family::new("gen_separated", 700, 14000, gen_separated),
             Family::new("gen_quasitri", 700, 14000, gen_quasitri),
             Family::new("large", 140, 2800, large),
+            Family::new("order_above_256", 6, 60, order_above_256),
         ],
         min_nontrivial: 1500,
         case_timeout_s: 120,
